@@ -175,6 +175,8 @@ def main(argv):
 
     # ---- 1. replay corpus (regression inputs; seconds) -----------------------
     corpus = sorted(glob.glob(os.path.join(HERE, "replays", check_id, "*.json")))
+    if os.environ.get("VT_NO_CORPUS"):
+        corpus = []  # (used to measure what the generators find on their own)
     corpus_run = 0
     known_repro = {}
     from concurrent.futures import ThreadPoolExecutor
